@@ -40,11 +40,13 @@ type CheckPlan struct {
 
 // CheckCall is one observed call.
 type CheckCall struct {
+	Tag     string // msgMeta.OriginalFrom: lets a world tell messages apart
 	MsgID   string
 	Stage   string // conn, sender, rcpt, body, close, state
 	Arg     string
 	Verdict Verdict
 	Step    int
+	StateN  int // which state object of this check (1-based)
 }
 
 // ScriptedCheck implements module.Check (and module.Module).
@@ -99,19 +101,24 @@ func (c *ScriptedCheck) CheckStateForMsg(ctx context.Context, msgMeta *module.Ms
 		}
 	}
 	if plan.StateErr != OK {
-		c.log(CheckCall{MsgID: msgMeta.ID, Stage: "state", Verdict: VRejectPerm})
+		c.log(CheckCall{Tag: msgMeta.OriginalFrom, MsgID: msgMeta.ID, Stage: "state", Verdict: VRejectPerm})
 		return nil, MkErr(plan.StateErr, 0, "check state "+c.Label)
 	}
 	c.mu.Lock()
 	c.Opened++
 	c.mu.Unlock()
-	return &scriptedCheckState{c: c, plan: plan, id: msgMeta.ID}, nil
+	c.mu.Lock()
+	n := c.Opened
+	c.mu.Unlock()
+	return &scriptedCheckState{c: c, plan: plan, id: msgMeta.ID, tag: msgMeta.OriginalFrom, n: n}, nil
 }
 
 type scriptedCheckState struct {
 	c      *ScriptedCheck
 	plan   *CheckPlan
 	id     string
+	tag    string
+	n      int
 	closed bool
 }
 
@@ -134,26 +141,26 @@ func (st *scriptedCheckState) result(v Verdict, stage string) module.CheckResult
 
 func (st *scriptedCheckState) CheckConnection(ctx context.Context) module.CheckResult {
 	simrt.Point("chk:"+st.c.Label, "conn")
-	st.c.log(CheckCall{MsgID: st.id, Stage: "conn", Verdict: st.plan.Conn})
+	st.c.log(CheckCall{StateN: st.n, Tag: st.tag, MsgID: st.id, Stage: "conn", Verdict: st.plan.Conn})
 	return st.result(st.plan.Conn, "conn")
 }
 
 func (st *scriptedCheckState) CheckSender(ctx context.Context, mailFrom string) module.CheckResult {
 	simrt.Point("chk:"+st.c.Label, "sender")
-	st.c.log(CheckCall{MsgID: st.id, Stage: "sender", Arg: mailFrom, Verdict: st.plan.Sender})
+	st.c.log(CheckCall{StateN: st.n, Tag: st.tag, MsgID: st.id, Stage: "sender", Arg: mailFrom, Verdict: st.plan.Sender})
 	return st.result(st.plan.Sender, "sender")
 }
 
 func (st *scriptedCheckState) CheckRcpt(ctx context.Context, rcptTo string) module.CheckResult {
 	simrt.Point("chk:"+st.c.Label, "rcpt:"+rcptTo)
 	v := st.plan.Rcpt[rcptTo]
-	st.c.log(CheckCall{MsgID: st.id, Stage: "rcpt", Arg: rcptTo, Verdict: v})
+	st.c.log(CheckCall{StateN: st.n, Tag: st.tag, MsgID: st.id, Stage: "rcpt", Arg: rcptTo, Verdict: v})
 	return st.result(v, "rcpt")
 }
 
 func (st *scriptedCheckState) CheckBody(ctx context.Context, header textproto.Header, body buffer.Buffer) module.CheckResult {
 	simrt.Point("chk:"+st.c.Label, "body")
-	st.c.log(CheckCall{MsgID: st.id, Stage: "body", Verdict: st.plan.Body})
+	st.c.log(CheckCall{StateN: st.n, Tag: st.tag, MsgID: st.id, Stage: "body", Verdict: st.plan.Body})
 	return st.result(st.plan.Body, "body")
 }
 
@@ -161,7 +168,7 @@ func (st *scriptedCheckState) Close() error {
 	st.c.mu.Lock()
 	st.c.Closed++
 	st.c.mu.Unlock()
-	st.c.log(CheckCall{MsgID: st.id, Stage: "close"})
+	st.c.log(CheckCall{StateN: st.n, Tag: st.tag, MsgID: st.id, Stage: "close"})
 	st.closed = true
 	return nil
 }
